@@ -91,6 +91,14 @@ def gen_cases(ctx):
                 for tracked in (False, True):
                     yield {"supported": lst, "preferred": None, "answer": {"kind": "version", "v": lst[0]}, "tracked": tracked,
                            "write_fault": {"at": nth, "exc": exc}}
+    # the peer is slow to take the n-th message (for longer than the timeout): the call may take as long, or fail - but it
+    # must not report success without the initialized notification having gone out
+    for lst in lists[:4]:
+        for nth in (1, 2):
+            for stall in (TIMEOUT + 1.0, TIMEOUT * 3):
+                for tracked in (False, True):
+                    yield {"supported": lst, "preferred": None, "answer": {"kind": "version", "v": lst[0]}, "tracked": tracked,
+                           "write_fault": {"at": nth, "exc": f"stall:{stall}"}}
     # default list (None) = the library's own
     for ans in answers_for(["2025-06-18"]):
         yield {"supported": None, "preferred": None, "answer": ans, "tracked": True}
@@ -141,6 +149,11 @@ class FaultySend:
     async def send(self, item):
         import anyio
         self.n += 1
+        if self.n == self._at and self._exc.startswith("stall:"):
+            # the peer is slow to take this message (longer than the call's timeout): it is delivered when the stall ends,
+            # unless the sender gives up (is cancelled) first
+            await asyncio.sleep(float(self._exc.split(":")[1]))
+            return await self._inner.send(item)
         if self.n == self._at:
             raise {"broken": anyio.BrokenResourceError, "closed": anyio.ClosedResourceError,
                    "oserror": lambda: OSError("pipe gone")}[self._exc]()
@@ -241,6 +254,19 @@ def exec_case(ctx, case: Dict[str, Any], shared_list: Any = None) -> None:
         # the handshake cannot have completed: success would mean "initialized was sent", which it was not
         ctx.count("write_fault_handshakes")
         notes_sent = [e for e in sends if getattr(e["obj"], "method", None) == "notifications/initialized"]
+        if str(wf["exc"]).startswith("stall:"):
+            # a slow peer, not a broken one: success is possible (after the stall) - but only with the notification out
+            notes_before_return = [e for e in notes_sent if trace.events.index(e) < obs["n_events_at_return"]]
+            if okind == "return" and len(notes_before_return) != 1:
+                ctx.violation("success_without_initialized_notification", f"the peer was slow to take message #{wf['at']} "
+                              f"({wf['exc']}): the call returned {oval!r} after {obs['t_done']}s with {len(notes_before_return)} "
+                              f"initialized notifications delivered before it returned ({len(notes_sent)} in all)", case)
+            if okind != "return" and notes_sent:
+                ctx.violation("initialized_after_failure", f"slow peer: the call raised {oval!r} yet an initialized notification "
+                              f"was delivered", case)
+            ctx.record(case, shape=[okind, type(oval).__name__, len(notes_sent)], cls=f"write_stall:{wf['at']}",
+                       sample={"case": case, "outcome": [okind, type(oval).__name__], "t_done": obs["t_done"]})
+            return
         if okind == "return":
             ctx.violation("success_without_initialized_notification", f"the write stream failed at message #{wf['at']} "
                           f"({wf['exc']}) yet the call returned {oval!r}; {len(notes_sent)} initialized notifications were "
